@@ -469,11 +469,24 @@ GStray ==
   {V({"C18"}, "stamp-unknown-generator", i) : i \in {i \in Idx : Proc(i) /\ F[i].sid # 0 /\ F[i].sid \notin Spawns}}
 
 -----------------------------------------------------------------------------
+(* Ephemeral frames are never in the stream; q.ephs is what a follower of all contexts inside the server saw. The    *)
+(* scenarios' clients never append ephemeral frames, so each of them was written by a processor: it carries that     *)
+(* processor's stamp (C15 C18 C19) and lies in the context the processor writes to (C06): a handler's own context,  *)
+(* the context of the call for a command, the context of the spawn for a generator.                                 *)
+EphStray(q) ==
+  UNION {
+    LET x == q.ephs[y] IN
+      (IF x.hid = 0 /\ x.cid = 0 /\ x.sid = 0 THEN {V({"C15", "C06"}, "unstamped-ephemeral-frame", 0)} ELSE {})
+      \cup (IF x.hid >= 1 /\ x.hid <= N /\ F[x.hid].ctx # x.ctx THEN {V({"C15", "C06"}, "ephemeral-output-context", x.hid)} ELSE {})
+      \cup (IF x.cid >= 1 /\ x.fid >= 1 /\ x.fid <= N /\ F[x.fid].ctx # x.ctx THEN {V({"C19", "C06"}, "ephemeral-output-context", x.fid)} ELSE {})
+      \cup (IF x.sid >= 1 /\ x.sid <= N /\ F[x.sid].ctx # x.ctx THEN {V({"C18", "C06"}, "ephemeral-output-context", x.sid)} ELSE {})
+    : y \in 1..Len(q.ephs)}
+
 Verdict(q) ==
   LET H == [r \in HRegs |-> HReg(q, r)]
       C == [c \in Calls |-> CCall(q, c)]
       G == [g \in Spawns |-> GSpawn(q, g)]
-  IN [v |-> UNION {H[r].v : r \in HRegs} \cup HStray
+  IN [v |-> UNION {H[r].v : r \in HRegs} \cup HStray \cup EphStray(q)
             \cup UNION {C[c].v : c \in Calls} \cup CDefs(q) \cup CStray
             \cup UNION {G[g].v : g \in Spawns} \cup GStray,
       k |-> UNION {H[r].k : r \in HRegs} \cup UNION {C[c].k : c \in Calls} \cup UNION {G[g].k : g \in Spawns}]
